@@ -5,9 +5,41 @@ specific parameters; cpu_budget_s is the per-worker soft CPU budget after
 which remaining cases are skipped (=> inconclusive), cpu_hard_s the RLIMIT.
 """
 
+import shutil
+import tempfile
+
 from . import javax
 
+
+def c02_pre(params):
+    params["share_dir"] = tempfile.mkdtemp(prefix="gtmon-c02-")
+
+
+def c02_post(m, env):
+    shutil.rmtree(env["params"].get("share_dir", ""), ignore_errors=True)
+
 REGISTRY = {
+    "C02": {
+        "level": "exploration",
+        "pre": c02_pre, "post": c02_post,
+        "configs": [
+            {"name": "upb", "env": {
+                "PROTOCOL_BUFFERS_PYTHON_IMPLEMENTATION": "upb"}},
+            {"name": "python", "env": {
+                "PROTOCOL_BUFFERS_PYTHON_IMPLEMENTATION": "python"}},
+        ],
+        "tiers": {
+            "quick": {"workers": 8, "n_spec": 800, "python_scale": 0.25},
+            "thorough": {"workers": 16, "n_spec": 20000, "python_scale": 0.5},
+        },
+    },
+    "C01": {
+        "level": "exploration",
+        "tiers": {
+            "quick": {"workers": 8, "n_spec": 1200},
+            "thorough": {"workers": 16, "n_spec": 40000},
+        },
+    },
     "C07": {
         "level": "exploration",
         "tiers": {
